@@ -35,7 +35,8 @@ def langstr(R, info):
 
 
 def norm_ws(s):
-    return re.sub(r"\s+", " ", s).strip()
+    """comparison "up to whitespace": whitespace is ignored altogether (no-word-spacing locales join tokens across line breaks)"""
+    return re.sub(r"\s+", "", s)
 
 
 def probe(job):
